@@ -40,8 +40,13 @@ func (fn *Function) Exec(thisValue r.Element, params []r.Element) (r.Element, er
 	if err != nil {
 		switch err.(type) {
 		case *zerr.SyntaxError:
+			// (Go cases do not fall through: each of these has to return by itself,
+			// otherwise the error is dropped and the call "succeeds" with a nil value)
+			return nil, err
 		case *zerr.SemanticError:
+			return nil, err
 		case *zerr.IOError:
+			return nil, err
 		case *zerr.Signal:
 			// return the original error AS IS
 			return nil, err
